@@ -8,14 +8,19 @@
    Server  = a script of answers consumed one per HTTP request, in request order (an empty script answers HTTP 500).
    An operation is a function on the machine state with the write points of the code; it returns or raises.
 
+   Configurations: `cur` is the code as it is now; `old` is the code before the repairs bf317fcd (RemoteJob._from_dict
+   restores job_context from the stored body) and 13320b52 (JobGroup.add prepares and validates the payload before
+   the append, with or without keyword arguments). `old` is kept only for the historical `_old_code` witnesses.
+
    Faithful quirks (each is visible in the Python source):
    * _to_dict stores status None for an unsent job, and no body for a SUCCESS job;
-   * _from_dict builds RemoteJob(body, handler, name): job_context, delta parameters and the error counter are NOT
-     restored (they restart at None / empty / 0); the stored payload's 'job_context' entry is dead, because
-     _create_payload_data overwrites it with the job's own _job_context before every use;
+   * _from_dict builds RemoteJob(body, handler, name, job_context=body['payload'].get('job_context')): delta
+     parameters and the error counter are NOT restored (they restart at empty / 0), the job context is (it was not
+     before bf317fcd: the stored entry was then dead, overwritten by None before every use);
    * _create_payload_data merges the command delta parameters into the payload, then lowers max_samples to max_shots;
      comparing None with an int raises TypeError (a max_samples delta parameter left unfilled);
-   * add appends to the list before the group is written;
+   * add prepares the payload (TypeError / RuntimeError) before it appends, then writes (before 13320b52 the payload
+     was prepared only when keyword arguments were given, so the TypeError came from the write, after the append);
    * execute_async asserts the status is WAITING; a refused job keeps id None and gets status ERROR;
    * _launch_jobs iterates over the initial range only; in rerun mode `job.is_failed` goes through the `status`
      property, which may refresh the status from the server without a write;
@@ -62,7 +67,7 @@ Record job := mkjob {
   jpay : payload;          (* _request_data['payload'] as given *)
   jdcmd : option pval;     (* _delta_parameters['command'] : absent / {'max_samples': v} *)
   jdmap : mdelta;          (* _delta_parameters['mapping'] *)
-  jctx : option Z;         (* _job_context as given: None / {'result_mapping': token} *)
+  jctx : ectx_t;           (* _job_context: None / dict with optional result_mapping and mapping_delta_parameters *)
   jmeta : Z                (* the RPCHandler (platform, url, token, proxies), opaque *)
 }.
 
@@ -77,8 +82,8 @@ Definition set_id (j : job) (i : Z) : job :=
 (* _create_payload_data: the job_context that is put into the payload *)
 Definition ectx (j : job) : ectx_t :=
   match jdmap j with
-  | None => match jctx j with Some r => Some (Some r, None) | None => None end
-  | Some m => Some (jctx j, Some m)
+  | None => jctx j
+  | Some m => Some (match jctx j with Some (r, _) => r | None => None end, Some m)
   end.
 
 (* _check_max_shots_samples_validity; None = TypeError ('>' between NoneType and int) *)
@@ -130,12 +135,18 @@ Definition to_disk (j : job) : option djob :=
 
 Definition dummy_pay : payload := mkpay None None 0.
 
+(* which version of the code *)
+Record cfg := mkcfg { restore_ctx : bool;      (* bf317fcd *)
+                      add_validates : bool }.  (* 13320b52 *)
+Definition cur : cfg := mkcfg true true.
+Definition old : cfg := mkcfg false false.
+
 (* JobGroup._build_remote_job + RemoteJob._from_dict *)
-Definition from_disk (d : djob) : job :=
+Definition from_disk (c : cfg) (d : djob) : job :=
   let s := match d_st d with Some s => s | None => WAITING end in
   match d_st d, d_body d with
   | Some SUCCESS, _ => mkjob (d_id d) s 0 0 dummy_pay None None None (d_meta d)
-  | _, Some b => mkjob (d_id d) s 0 (b_name b) (b_pay b) None None None (d_meta d)
+  | _, Some b => mkjob (d_id d) s 0 (b_name b) (b_pay b) None None (if restore_ctx c then b_ctx b else None) (d_meta d)
   | _, None => mkjob (d_id d) s 0 0 dummy_pay None None None (d_meta d)   (* KeyError in Python; unreachable *)
   end.
 
@@ -148,7 +159,7 @@ Fixpoint save (l : list job) : option (list djob) :=
               | _, _ => None
               end
   end.
-Definition load (ds : list djob) : list job := map from_disk ds.
+Definition load (c : cfg) (ds : list djob) : list job := map (from_disk c) ds.
 
 (* ---------------------------------------------------------------- server *)
 Inductive answer :=
@@ -229,8 +240,8 @@ Fixpoint wait_loop (fuel : nat) (j : job) (sc : script) (lg : list req) : job * 
   end.
 
 (* a RemoteJob produced by rerun(): _from_dict of the failed job's dictionary with the new id, status WAITING *)
-Definition rerun_job (j : job) (b : body) (i : Z) : job :=
-  from_disk (mkdjob (Some i) (Some WAITING) (jmeta j) (Some b)).
+Definition rerun_job (c : cfg) (j : job) (b : body) (i : Z) : job :=
+  from_disk c (mkdjob (Some i) (Some WAITING) (jmeta j) (Some b)).
 
 (* JobGroup._launch_jobs, one iteration of the main loop. Current list = pre ++ j :: post ++ app (app: jobs appended
    by rerun without replacement; they are not visited, the range was computed before the loop). *)
@@ -268,7 +279,7 @@ Definition lstop (pre : list job) (cur : job) (post app : list job) (dk : list d
   LStop (mkm (pre ++ cur :: post ++ app) dk sc lg dy) (Raised e).
 
 (* rerun mode, once `job.is_failed` has returned: j1 is the job with its possibly refreshed status *)
-Definition rerun_after_status (seq repl : bool) (pre : list job) (j j1 : job) (post app : list job)
+Definition rerun_after_status (c : cfg) (seq repl : bool) (pre : list job) (j j1 : job) (post app : list job)
   (dk : list djob) (sc1 : script) (lg1 : list req) (dirty : bool) : lres :=
   let dirty1 := dirty || changed j j1 in
   if failed (jst j1) then
@@ -282,23 +293,23 @@ Definition rerun_after_status (seq repl : bool) (pre : list job) (j j1 : job) (p
             let (a, sc2) := pop sc1 in
             let lg2 := lg1 ++ [RRerun (Some i)] in
             match a with
-            | AOk i' _ => launched true seq repl pre post app dk dirty1 j1 (rerun_job j1 b i') sc2 lg2
+            | AOk i' _ => launched true seq repl pre post app dk dirty1 j1 (rerun_job c j1 b i') sc2 lg2
             | _ => lstop pre j1 post app dk sc2 lg2 dirty1 E_HTTP
             end
         end
     end
   else LCont (pre ++ [j1]) app dk sc1 lg1 dirty1.
 
-Definition launch_one (rerun seq repl : bool) (pre : list job) (j : job) (post app : list job) (dk : list djob)
+Definition launch_one (c : cfg) (rerun seq repl : bool) (pre : list job) (j : job) (post app : list job) (dk : list djob)
   (sc : script) (lg : list req) (dirty : bool) : lres :=
   if rerun then
     (* job.is_failed -> job.status (may refresh) *)
     if polls j then
       match poll j sc with
       | (PRaise j1, sc1) => lstop pre j1 post app dk sc1 (lg ++ [RStatus (jid j)]) dirty E_HTTP
-      | (PStatus j1, sc1) => rerun_after_status seq repl pre j j1 post app dk sc1 (lg ++ [RStatus (jid j)]) dirty
+      | (PStatus j1, sc1) => rerun_after_status c seq repl pre j j1 post app dk sc1 (lg ++ [RStatus (jid j)]) dirty
       end
-    else rerun_after_status seq repl pre j j post app dk sc lg dirty
+    else rerun_after_status c seq repl pre j j post app dk sc lg dirty
   else if sent j then LCont (pre ++ [j]) app dk sc lg dirty
   else if negb (waiting (jst j)) then lstop pre j post app dk sc lg dirty E_ASSERT
   else
@@ -313,32 +324,33 @@ Definition launch_one (rerun seq repl : bool) (pre : list job) (j : job) (post a
         end
     end.
 
-Fixpoint launch_loop (rerun seq repl : bool) (pre post app : list job) (dk : list djob) (sc : script)
+Fixpoint launch_loop (c : cfg) (rerun seq repl : bool) (pre post app : list job) (dk : list djob) (sc : script)
   (lg : list req) (dirty : bool) : mach * outcome :=
   match post with
   | [] => (mkm (pre ++ app) dk sc lg dirty, Returned)
   | j :: post' =>
-      match launch_one rerun seq repl pre j post' app dk sc lg dirty with
-      | LCont pre' app' dk' sc' lg' dirty' => launch_loop rerun seq repl pre' post' app' dk' sc' lg' dirty'
+      match launch_one c rerun seq repl pre j post' app dk sc lg dirty with
+      | LCont pre' app' dk' sc' lg' dirty' => launch_loop c rerun seq repl pre' post' app' dk' sc' lg' dirty'
       | LStop m o => (m, o)
       end
   end.
 
-Definition launch (rerun seq repl : bool) (m : mach) : mach * outcome :=
+Definition launch (c : cfg) (rerun seq repl : bool) (m : mach) : mach * outcome :=
   if rerun then
     (* job_nmb = len(self.list_unsuccessful_jobs()) : a refresh pass first *)
     let '(m1, o) := update_statuses m in
     match o with
     | Raised e => (m1, Raised e)
-    | Returned => launch_loop true seq repl [] (mem m1) [] (disk m1) (scr m1) (rlog m1) false
+    | Returned => launch_loop c true seq repl [] (mem m1) [] (disk m1) (scr m1) (rlog m1) false
     end
-  else launch_loop false seq repl [] (mem m) [] (disk m) (scr m) (rlog m) false.
+  else launch_loop c false seq repl [] (mem m) [] (disk m) (scr m) (rlog m) false.
 
 (* ---------------------------------------------------------------- operations *)
 Record spec := mkspec { s_name : Z; s_pay : payload; s_dcmd : option pval; s_dmap : mdelta; s_ctx : option Z;
                         s_meta : Z }.
 Definition job_of_spec (s : spec) : job :=
-  mkjob None WAITING 0 (s_name s) (s_pay s) (s_dcmd s) (s_dmap s) (s_ctx s) (s_meta s).
+  mkjob None WAITING 0 (s_name s) (s_pay s) (s_dcmd s) (s_dmap s)
+        (match s_ctx s with Some r => Some (Some r, None) | None => None end) (s_meta s).
 
 Inductive op :=
 | OReopen                                              (* the process stops; JobGroup(name) again *)
@@ -361,12 +373,12 @@ Definition pre_exec (j : job) (sc : script) (lg : list req) : job * script * lis
 
 Definition zmem (z : Z) (l : list (option Z)) : bool := existsb (fun o => match o with Some y => Z.eqb z y | None => false end) l.
 
-Definition add_job (m : mach) (j : job) (kms : option Z) (kbad : bool) : mach * outcome :=
+Definition add_job (c : cfg) (m : mach) (j : job) (kms : option Z) (kbad : bool) : mach * outcome :=
   let dup := match jid j with Some i => zmem i (map jid (mem m)) | None => false end in
   if dup then (m, Raised E_DUP)
   else
     let has_kw := match kms with Some _ => true | None => kbad end in
-    let r := if has_kw then
+    let r := if add_validates c || has_kw then
                match handle_params j kms kbad with
                | None => inr E_KWARGS
                | Some j' => match eff_body j' with None => inr E_TYPE | Some _ => inl j' end
@@ -382,23 +394,23 @@ Definition add_job (m : mach) (j : job) (kms : option Z) (kbad : bool) : mach * 
         end
     end.
 
-Definition step (m0 : mach) (o : op) : mach * outcome :=
+Definition step (c : cfg) (m0 : mach) (o : op) : mach * outcome :=
   let m := mkm (mem m0) (disk m0) (scr m0) (rlog m0) false in
   match o with
-  | OReopen => (mkm (load (disk m)) (disk m) (scr m) (rlog m) false, Returned)
+  | OReopen => (mkm (load c (disk m)) (disk m) (scr m) (rlog m) false, Returned)
   | OAdd s pre kms kbad =>
       let '(j, sc, lg) := if pre then pre_exec (job_of_spec s) (scr m) (rlog m) else (job_of_spec s, scr m, rlog m) in
-      add_job (mkm (mem m) (disk m) sc lg false) j kms kbad
-  | ORun seq => launch false seq false m
-  | ORerun seq repl => launch true seq repl m
+      add_job c (mkm (mem m) (disk m) sc lg false) j kms kbad
+  | ORun seq => launch c false seq false m
+  | ORerun seq repl => launch c true seq repl m
   | OProgress => update_statuses m
   end.
 
 (* JobGroup(name) on a fresh directory: empty list, written at once *)
 Definition init (sc : script) : mach := mkm [] [] sc [] false.
 
-Fixpoint run (m : mach) (ops : list op) : mach :=
-  match ops with [] => m | o :: r => run (fst (step m o)) r end.
+Fixpoint run (c : cfg) (m : mach) (ops : list op) : mach :=
+  match ops with [] => m | o :: r => run c (fst (step c m o)) r end.
 
 (* ---------------------------------------------------------------- progress() and list_*_jobs() (after the refresh) *)
 Definition cat_unsent (j : job) : bool := negb (sent j).
